@@ -752,6 +752,40 @@ def check_status(ck, s, tainted):
               "xzdiff: the suffix list tested on %s at line %d differs from its siblings (missing %s, extra %s): an operand with "
               "that suffix is decompressed in one argument position and compared as raw bytes in the other" % (
                   odd[0][2], odd[0][0], sorted(ref - odd[0][1]), sorted(odd[0][1] - ref)), key="STATUS:xzdiff:suffix-lists")
+    if s.name == "xzdiff":
+        # `-` is an accepted operand (the suffix lists end with `| -`): the decompressor that gets "$1"/"$2" then reads the
+        # script's standard input, so it must not run with stdin taken from /dev/null (or any other file)
+        for c, ctx in s.cmds:
+            if c["t"] != "simple" or not c["words"]:
+                continue
+            p0 = [nm for nm, q, p in word_params(c["words"][0])]
+            if not p0 or p0[0] not in ("xz1", "xz2"):
+                continue
+            ops = [nm for w in c["words"][1:] for nm, q, p in word_params(w) if nm in ("1", "2")]
+            if not ops:
+                continue
+            # is `-` possible for this operand here?  (an enclosing case arm on that operand lists `-`)
+            dash_ok = False
+            for a in ctx:
+                if a.get("t") == "case" and any(nm == ops[0] for nm, q, p in word_params(a["word"])):
+                    for pats, body, ln in a["arms"]:
+                        txt = [p_.text() if hasattr(p_, "text") else str(p_) for p_ in pats]
+                        if "-" in txt and any(x is c for x, _ in sh.walk_commands(body)):
+                            dash_ok = True
+            if not dash_ok:
+                continue
+            n += 1
+            stolen = None
+            for node in (c,) + tuple(ctx):
+                for (fd_, op_, w_) in node.get("redirs", []) or []:
+                    if op_ == "<" and fd_ in (None, 0, "0", "") and w_.text() not in ("&0",):
+                        stolen = (node, w_.text())
+            ck.ob("C20-STATUS", "xzdiff:stdin-operand:%d" % c["line"], stolen is None, s.where(c["line"]),
+                  "xzdiff: `%s` keeps the script's standard input (operand may be `-`)" % " ".join(w.text() for w in c["words"])
+                  if stolen is None else
+                  "xzdiff: `%s` can be given the operand `-` (standard input), but it runs with `<%s`: `xzdiff FILE.xz - <OTHER` "
+                  "compares FILE with empty data (identical files are reported as different, an empty FILE as identical)" % (
+                      " ".join(w.text() for w in c["words"]), stolen[1]), key="STATUS:xzdiff:stdin-operand")
     if s.name == "xzgrep":
         # res only moves 1 -> 0 (match) or up to the largest error: every later store is guarded by a test of $res
         for (name, v, c, ctx) in s.assigns:
